@@ -28,9 +28,10 @@ class PI(param.Parameterized):
     n = param.Integer(default=0, allow_refs=True)
 
 
-def prog(n: int, k1: int, k2: int, k3: int, same: bool, c1: int, c2: int, c3: int, c4: int, c5: int) -> None:
+def prog(n: int, k1: int, k2: int, k3: int, same: bool, gap: bool, c1: int, c2: int, c3: int, c4: int, c5: int) -> None:
     kinds = [pick(k, 0, 2) for k in (k1, k2, k3)][:n]
     same = pickbool(same)
+    gap = pickbool(gap)
     with untraced():
         p = P()
     seen = []
@@ -74,8 +75,11 @@ def prog(n: int, k1: int, k2: int, k3: int, same: bool, c1: int, c2: int, c3: in
             return ('plain', i)
         for i, kind in enumerate(kinds):
             p.x = mk(i, kind)
-            for _ in range(3):
-                await asyncio.sleep(0)
+            if gap:      # without a gap the next assignment is made before the task of this one has started
+                for _ in range(3):
+                    await asyncio.sleep(0)
+        for _ in range(3):
+            await asyncio.sleep(0)
         # resolve pending futures in a solver-chosen order
         for c in (c1, c2, c3, c4, c5):
             pend = [t for t in futs if not t[2].done()]
@@ -100,7 +104,7 @@ def prog(n: int, k1: int, k2: int, k3: int, same: bool, c1: int, c2: int, c3: in
     last = kinds[-1]
     li = len(kinds) - 1
     exp = ('plain', li) if last == 2 else (('res', li, 0) if last == 0 else ('res', li, 1))
-    info = {'kinds': list(kinds), 'same': same, 'x': repr(p.x), 'exp': repr(exp), 'seen': repr(seen)}
+    info = {'kinds': list(kinds), 'same': same, 'gap': gap, 'x': repr(p.x), 'exp': repr(exp), 'seen': repr(seen)}
     check('C10.plain_cancels' if last == 2 else 'C10.final_latest', p.x == exp, info)
     # once the watcher saw anything belonging to the latest assignment, nothing older may follow
     idx = [(v[1] if isinstance(v, tuple) and len(v) >= 2 else -1) for v in seen]
